@@ -728,22 +728,9 @@ def rep(q):
 
 
 def exact_len(v):
-    """the implementation's sqrt(sum of squares) is exact for the cell vector v (Fractions): one non-zero component
-    (sqrt(fl(x^2)) == |x| in binary64), or rational length with every square and partial sum representable"""
-    nz = [x for x in v if x != 0]
-    if len(nz) <= 1:
-        return True
-    l2 = sq(v)
-    if not is_sq(l2):
-        return False
-    acc = Fraction(0)
-    for x in v:
-        if not rep(x * x):
-            return False
-        acc += x * x
-        if not rep(acc):
-            return False
-    return True
+    """the implementation's norm of the cell vector v is exact under any sane algorithm: at most one non-zero
+    component (sqrt(fl(x^2)) == |x| in binary64, and scaled algorithms return |x| as well)"""
+    return sum(1 for x in v if x != 0) <= 1
 
 
 def info_of(cells):
@@ -755,29 +742,28 @@ def cell_info(field_json):
     return info_of([[F(x) for x in row] for row in field_json["data"]])
 
 
-def cmp_snap(name, impl, model, dis, pre_info=None, field_rel=None):
-    """impl/model: dict(field, norm, orientation).  pre_info: cell_info of the state the field was computed from
-    (None: the field itself is expected to be exact)."""
+def cmp_snap(name, impl, model, dis, rounded):
+    """impl/model: dict(field, norm, orientation).  rounded: the field itself went through the setter's division and
+    multiplication (allowed 16u per component against the exact model); otherwise it must equal the model exactly.
+    Tolerances are deliberately a few times the derived rounding bounds (setter <= 5u, norm <= 3u, orientation <= 4u)
+    so that a numerically harmless re-ordering of the arithmetic is not an alarm; zeros are always exact because
+    the bounds are relative per component."""
     if not cmp_meta(name + " field", impl["field"], model["field"], dis):
         return
-    if pre_info is None:
-        cmp_data(name + " field", impl["field"], model["field"], dis, lambda k: Fraction(0))
-    else:
-        cmp_data(name + " field", impl["field"], model["field"], dis, lambda k: (3 * U if pre_info[k][1] else 8 * U))
+    frel = 16 * U if rounded else Fraction(0)
+    cmp_data(name + " field", impl["field"], model["field"], dis, lambda k: frel)
     info = cell_info(impl["field"])
     if cmp_meta(name + " norm", impl["norm"], model["norm"], dis):
         # the model's norm is computed from the MODEL's field; where that differs by rounding from the implementation's
         # field the norm inherits the relative error
-        frel = (lambda k: Fraction(0)) if pre_info is None else (lambda k: (3 * U if pre_info[k][1] else 8 * U))
         cmp_data(name + " norm", impl["norm"], model["norm"], dis,
-                 lambda k: frel(k) + (Fraction(0) if info[k][1] else 4 * U))
+                 lambda k: frel + (Fraction(0) if info[k][1] else 4 * U))
     if cmp_meta(name + " orientation", impl["orientation"], model["orientation"], dis):
-        def near(k):  # boundary comparator: irrational length within rounding of the threshold -> either outcome
-            l2, exact = info[k]
-            band = 64 * U + 4 * ((3 * U if pre_info[k][1] else 8 * U) if pre_info is not None else 0)
-            return (not exact or pre_info is not None) and abs(l2 - ATOL * ATOL) <= band * ATOL * ATOL
+        def near(k):  # boundary comparator: length within rounding of the threshold -> either outcome
+            l2, single = info[k]
+            return (rounded or not single) and abs(l2 - ATOL * ATOL) <= (64 * U + 4 * frel) * ATOL * ATOL
         cmp_data(name + " orientation", impl["orientation"], model["orientation"], dis,
-                 lambda k: frel(k) * 2 + (3 * U if info[k][1] else 8 * U), skip=near)
+                 lambda k: 2 * frel + (2 * U if info[k][1] else 8 * U), skip=near)
 
 
 def compare(case, obs, rs):
@@ -792,13 +778,7 @@ def compare(case, obs, rs):
     if "ok" not in r0:
         dis.append(f"constructor: impl ok vs model {r0}")
         return dis
-    # constructor: the pre-state of the norm application is the plain value array = model's value array; take the
-    # rationality information from the model's init norm when no norm was given, else from the value spec itself
-    if case["norm"] is None:
-        cmp_snap("constructor", obs["snaps"][0], r0["ok"]["init"], dis, None)
-    else:
-        pre = plain_info(case, obs)
-        cmp_snap("constructor", obs["snaps"][0], r0["ok"]["init"], dis, pre)
+    cmp_snap("constructor", obs["snaps"][0], r0["ok"]["init"], dis, case["norm"] is not None)
     for si, r in enumerate(rs[1:]):
         st = case["steps"][si]
         out = r["ok"]["steps"][0]
@@ -810,24 +790,8 @@ def compare(case, obs, rs):
         if "ok" not in out:
             dis.append(f"{name}: impl ok vs model {out}")
             break
-        pre = cell_info(obs["pre"][si]) if (st["k"] == "set_norm" and st["spec"] is not None) else None
-        cmp_snap(name, obs["snaps"][si + 1], out["ok"], dis, pre)
+        cmp_snap(name, obs["snaps"][si + 1], out["ok"], dis, st["k"] == "set_norm" and st["spec"] is not None)
     return dis
-
-
-def plain_info(case, obs):
-    """rationality of the plain value array of the constructor, from the value spec evaluated in exact arithmetic"""
-    ms, nv, s = case["mesh"], case["nvdim"], case["value"]
-    ncell = int(np.prod(ms["n"]))
-    if s["k"] == "scalar":
-        cells = [[fr(s["v"])] * nv] * ncell
-    elif s["k"] == "vec":
-        cells = [[fr(x) for x in s["v"]]] * ncell
-    elif s["k"] == "arr":
-        cells = [[fr(x) for x in row] for row in s["data"]]
-    else:
-        cells = [[poly_eval_frac(ts, p) for ts in s["comps"]] for p in centres_frac(ms)]
-    return info_of(cells)
 
 
 def nontrivial(case, obs):
